@@ -481,6 +481,45 @@ def progress_predicate(F, R):
                         R.bad("C16-R4", key, site, "Progress.diverging = %s, not provably `divergence info is Some`" % s[:120])
 
 
+def r9(F, R):
+    """A `store_*` switch of the settings reaches the statistics option of the same name."""
+    R.rule("C16-R9", "in every Settings::stats_options, each boolean field `store_X` of a statistics-options struct is given `self.store_X` of the settings "
+                     "(same name; helpers inlined): a switched pair makes the statistic whose option is on absent and the other one present on every draw")
+    n = 0
+    for b in F.trait_method_impls("sampler::Settings", "stats_options"):
+        for bi, blk in enumerate(b.blocks):
+            if blk["cleanup"]:
+                continue
+            for st in blk["stmts"]:
+                if st["k"] != "assign" or st["rv"]["k"] != "agg" or st["rv"].get("ak") != "adt" or not st["rv"].get("fields"):
+                    continue
+                adt = F.adts.get(st["rv"]["adt"]) or {}
+                ftypes = {f["name"]: f["ty"] for v_ in adt.get("variants", []) for f in v_["fields"]}
+                for fn, op in zip(st["rv"]["fields"], st["rv"]["ops"]):
+                    if not fn.startswith("store_") or ftypes.get(fn) != "bool":
+                        continue
+                    n += 1
+                    v = b.value(op)
+                    key = "%s:%s.%s" % (b.path, strip_generics(st["rv"]["adt"]).split("::")[-1], fn)
+                    site = "%s @%s" % (b.path, loc(st["span"]))
+                    src = v
+                    while src[0] in ("deref", "ref", "cast"):
+                        src = src[1]
+                    if src[0] == "field":
+                        root = src[1]
+                        while root[0] in ("deref", "ref", "field"):
+                            root = root[1]
+                        if root[0] == "arg" and root[1] == 1 and src[2] == fn:
+                            R.ok("C16-R9", key, site, "%s = self.%s" % (fn, fn))
+                            continue
+                        if root[0] == "arg" and root[1] == 1 and str(src[2]).startswith("store_"):
+                            R.bad("C16-R9", key, site, "option %s is driven by the settings switch `%s`" % (fn, src[2]))
+                            continue
+                    R.bad("C16-R9", key, site, "option %s is %s, not the settings switch of the same name" % (fn, vt_str(v)))
+    R.floor("C16-R9", 20)
+
+
+
 def run(F, R, config=None):
     decl = r1_r2_r3(F, R)
     r4_r5(F, R, decl)
@@ -488,6 +527,7 @@ def run(F, R, config=None):
     r6(F, R)
     r7(F, R)
     r8(F, R, decl)
+    r9(F, R)
     R.assume("user-supplied Storable impls (draw data) satisfy the documented contract; only workspace impls are analysed")
     R.assume("vector lengths equal the runtime size of the declared dimension (value statement, not decided)")
 
